@@ -100,6 +100,13 @@ impl SwiftField for Field56A {
             });
         }
 
+        // Nothing may follow the BIC line
+        if lines.len() > bic_line_idx + 1 {
+            return Err(ParseError::InvalidFormat {
+                message: "Field 56A has unexpected content after the BIC line".to_string(),
+            });
+        }
+
         let bic = parse_bic(lines[bic_line_idx])?;
 
         Ok(Field56A {
